@@ -451,6 +451,23 @@ pub fn gen(seed: u64, count: usize, tier: &str, params: &Params) -> Vec<Value> {
                     }
                 }
             }
+            "c18w" => {
+                // per-axis weighted forms vs the whole-array routine per lane under unusual weights: fractional weights whose sum
+                // is below ddof (negative variance, NaN standard deviation), negative and all-zero weights.  Only the
+                // bit-for-bit agreement of the two routines is judged (C18).
+                let n = rng.range(1, 8) as usize;
+                let shape = random_shape(&mut rng, n);
+                let axis = rng.below(shape.len() as u64) as usize;
+                let (lay1, lay2) = two_lays(&mut rng, &shape);
+                let r: Vec<i64> = (0..n).map(|_| rng.range(-16, 16)).collect();
+                let wl = shape[axis];
+                let w: Vec<i64> = match rng.below(4) { 0 => (0..wl).map(|_| rng.range(0, 1)).collect(), 1 => (0..wl).map(|_| rng.range(-3, 3)).collect(),
+                                                       2 => vec![0; wl], _ => (0..wl).map(|_| rng.range(0, 5)).collect() };
+                let ty = *rng.pick(&["f64", "f64", "f32"]);
+                cases.push(json!({"ev": "summ", "stat": *rng.pick(&["wsum_axis", "wmean_axis", "wvar_axis", "wstd_axis", "wstd_axis"]), "ty": ty, "r": r, "w": w, "S": 4,
+                                  "WS": *rng.pick(&[1i64, 4, 4, 16]), "d": rng.range(0, 2), "wexp": 0, "bexp": -1, "qe": 4, "tol": 2, "shape": shape, "axis": axis,
+                                  "lay1": lay1, "lay2": lay2, "wlay": *rng.pick(&["plain", "rev", "step"])}));
+            }
             "c18big" => {
                 // bulk vs single central moments where the sums overflow (finite data near the top of the range, or an infinity):
                 // only the bit-for-bit agreement of the two routines is judged (C18)
